@@ -24,6 +24,17 @@ VARIANTS = {
     # the sorter under the deterministic scheduler: every translation unit force-includes the shim
     "c04d": (["-fsanitize=address,undefined", "-fno-sanitize-recover=all"], "-O0"),
 }
+# watchdog marker of the harnesses (see harness/c04.cpp): fresh for every check run
+os.makedirs(os.path.join(core.BUILD, "C04"), exist_ok=True)
+os.environ["C04_WATCHDOG"] = os.path.join(core.BUILD, "C04", f"watchdog-{os.getpid()}")
+for _f in os.listdir(os.path.join(core.BUILD, "C04")):
+    if _f.startswith("watchdog-"):
+        try:
+            os.remove(os.path.join(core.BUILD, "C04", _f))
+        except OSError:
+            pass
+# a sort that no longer terminates (broken classifier, ...) must not eat the machine
+core.SAN_ENV["ASAN_OPTIONS"] = core.SAN_ENV["ASAN_OPTIONS"] + ":hard_rss_limit_mb=8192"
 core.SAN_ENV["UBSAN_OPTIONS"] = "print_stacktrace=0:halt_on_error=1:exitcode=98"   # message must fit the kept stderr tail
 os.environ.setdefault("TSAN_OPTIONS", "halt_on_error=1:exitcode=66:second_deadlock_stack=1")
 
@@ -115,6 +126,8 @@ def crash_message_c04(rc, err):
     tlx/sort frame>` (no addresses, template arguments, line numbers) from its ASan report
     callback / its __assert_fail; otherwise UBSan's or TSan's own one-line summary"""
     import re
+    if rc == 91:
+        return "#VIOL sort did not terminate within the time limit"
     m = re.search(r"C04-DEATH: (.*)", err)
     if m:
         return f"#VIOL crash rc={rc} {m.group(1).strip()[:200]}"
@@ -362,6 +375,7 @@ class C04(flow.Spec):
     def cases(self, ctx, seed, tier, round_no=0):
         rng = random.Random(seed * 1000003 + round_no * 7919 + 4)
         quick = tier == "quick"
+        self.case_timeout = 300 if quick else 1500      # a batch that hangs is cut off and blamed on the case it is in
         reps = 3 if quick else 8
         cs = []
         for i in range(30 if quick else 300):
@@ -416,8 +430,12 @@ class C04(flow.Spec):
         cov["detsched"] = dstats
         cov["stages"].append("detsched: real sorter under PRNG/PCT schedules (1-4 workers), ASan, results vs model, "
                              "event traces replayed through the protocol transition system")
+        # a rejected trace / a result that differs from the model is a broken correspondence, not
+        # (by itself) an input on which the property fails
+        corr = [(c, m) for c, m in dfails if _is_corr(m)]
+        real = [(c, m) for c, m in dfails if not _is_corr(m)]
         seen = set()
-        for c, msg in dfails:
+        for c, msg in real:
             cls = self.viol_class(msg)
             if cls in seen or len(seen) >= 3:
                 continue
@@ -435,6 +453,13 @@ class C04(flow.Spec):
                                         "message: " + msg[:300],
                                         f"replay: python3 check.py C04 --replay replays/C04/{name}"], small)
             ctx.violation(p, f"property fails on the implementation (deterministic scheduler): {msg[:200]}", bool(c))
+        if corr and not real:
+            c, msg = corr[0]
+            name = f"unproved_{ctx.tier}_{ctx.seed}_detsched.ops"
+            p = ctx.write_replay(name, ["stage: detsched", "kind: the run of the real code is no longer a run of the Lean models "
+                                        "(protocol trace or result); no failing input found",
+                                        "message: " + msg[:400], f"replay: python3 check.py C04 --replay replays/C04/{name}"], c)
+            ctx.violation(p, f"property no longer shown: {msg[:200]}", False)
         if ctx.quick():
             return cov
         cases = [c for c in getattr(self, "_cases0", []) if any(l == "go" or l.startswith("big") for l in c)]
@@ -464,6 +489,10 @@ class C04(flow.Spec):
                                             f"replay: python3 check.py C04 --replay replays/C04/{name}"], c)
                 ctx.violation(p, f"property fails on the implementation ({label} build): {msg[:200]}", True)
         return cov
+
+
+def _is_corr(msg):
+    return "event trace is not a run of the protocol model" in msg or "differs from the model" in msg
 
 
 class _Quiet:
